@@ -618,11 +618,18 @@ class Session(Gen):
             self.op("send %s send %s" % (h, hx(amqp.client_only_samples(self.handles[h])["basic.qos"])))
             self.op("ev %d" % self.handles[h])
         self.op("dump")
-        tail = [conn_close_ok()]
+        tail = [self.use(conn_close_ok())]
         if self.rng.random() < 0.3:
-            tail.append(heartbeat())
-        self.feed(tail)
+            tail.append(self.use(heartbeat()))
+        r = self.rng.random()
+        if r < 0.35:
+            # the server hangs up right after CloseOk: both arrive in one read
+            self.op("feed c:" + b"".join(f.bytes for f in tail).hex() + " " + self.rng.choice(["eof", "err"]))
+            self.op("ev stream r")
+        else:
+            self.feed(tail)
         self.op("recv 0 -")
+        self.op("done")
         self.closed = True
 
     def a_server_conn_close(self):
